@@ -4,7 +4,7 @@
    global.go of the FIXED tree; the pre-fix code is kept as [..._orig] and the full
    statements are refuted for it below (the three defects repaired by the "fix:"
    commits). *)
-From Coq Require Import List ZArith Bool.
+From Coq Require Import List ZArith Bool Permutation.
 From Coq.Strings Require Import Byte.
 Import ListNotations.
 From Zap Require Import Base.Wire C19.Model C19.Registry C19.Open C19.Proofs.
@@ -257,6 +257,68 @@ Theorem C19_history_reaches_every_destination : forall (mode : Z) (cl : bool) (l
   /\ wcount (is_wsync d) (history_evs mode cl len steps) = length (filter (fun st => negb (is_write_step st)) steps).
 Proof. exact history_delivery. Qed.
 Print Assumptions C19_history_reaches_every_destination.
+
+(* ---------------------------------------------------------------- overlapping registrations *)
+(* Registration is atomic.  RegisterSink / RegisterEncoder hold the registry's mutex from the
+   duplicate check to the insert, so a call is ONE step ([register] / [register_enc]) and
+   an execution of any number of overlapping calls is a sequence of such steps: an
+   interleaving [sched] of the calls [calls] (goroutine g: name, factory number).  For every
+   registry, every set of calls, every interleaving and every key k (scheme up to ASCII
+   case / exact encoder name): every call designating k returns nil or "already registered"
+   (losers_ok); if k was taken, no call is accepted and k keeps its owner; if k was free,
+   either no call designates it, or EXACTLY ONE call designating it returns nil and
+   afterwards k resolves to that call's factory / constructor - a later overlapping call
+   never replaces it. *)
+Theorem C19_registration_atomic_sinks : forall (r : sreg) (calls sched : list (bytes * nat)) (k : bytes),
+  Permutation calls sched ->
+  let res := conc_sreg r sched in
+  losers_ok skey k sched (fst res) = true /\
+  match lookup r k with
+  | Some v => winners skey k sched (fst res) = [] /\ lookup (snd res) k = Some v
+  | None => (winners skey k sched (fst res) = [] /\ lookup (snd res) k = None
+             /\ Forall (fun op => has_key skey k (fst op) = false) sched)
+            \/ exists id, winners skey k sched (fst res) = [id] /\ lookup (snd res) k = Some id
+  end.
+Proof. exact (fun r calls sched k _ => conc_sreg_atomic sched r k). Qed.
+Print Assumptions C19_registration_atomic_sinks.
+Theorem C19_registration_atomic_encoders : forall (r : ereg) (calls sched : list (bytes * nat)) (k : bytes),
+  Permutation calls sched ->
+  let res := conc_ereg r sched in
+  losers_ok ekey k sched (fst res) = true /\
+  match lookup r k with
+  | Some v => winners ekey k sched (fst res) = [] /\ lookup (snd res) k = Some v
+  | None => (winners ekey k sched (fst res) = [] /\ lookup (snd res) k = None
+             /\ Forall (fun op => has_key ekey k (fst op) = false) sched)
+            \/ exists id, winners ekey k sched (fst res) = [id] /\ lookup (snd res) k = Some (id, true)
+  end.
+Proof. exact (fun r calls sched k _ => conc_ereg_atomic sched r k). Qed.
+Print Assumptions C19_registration_atomic_encoders.
+(* the oracle run on the observations of overlapping calls (wire kind 7) accepts no
+   observation in which a key was accepted twice, or in which a call designating a key
+   returned anything but nil / "already registered" *)
+Theorem C19_overlapping_accepted_at_most_once : forall i o, sx_z (sx_nth i 0) = 7%Z -> spec i o = true ->
+  let ops := dec_cops (sx_nth i 2) in
+  exists codes looks ks, o = obs_conc codes looks ks /\ length codes = length ops /\
+    forall k,
+      if Z.eqb (sx_z (sx_nth i 1)) 0
+      then length (winners skey k ops codes) <= 1 /\ losers_ok skey k ops codes = true
+      else length (winners ekey k ops codes) <= 1 /\ losers_ok ekey k ops codes = true.
+Proof. exact conc_accepted. Qed.
+Print Assumptions C19_overlapping_accepted_at_most_once.
+(* two goroutines register "Race" / "RACE" at the same time: in both interleavings one call
+   is accepted; an observation with both accepted is rejected by the oracle, and so is one
+   in which the registry holds the factory of the call that was rejected *)
+Example C19_example_overlap :
+  let a := ([x52; x61; x63; x65], 2) in let b := ([x52; x41; x43; x45], 3) in
+  let ops := SL [SL [SB (fst a); SZ 2]; SL [SB (fst b); SZ 3]] in
+  let i := SL [SZ 7; SZ 0; ops] in
+  let ks := SL [SB s_file; SB [x72; x61; x63; x65]] in
+  fst (conc_sreg sreg0 [a; b]) = [0; 3]%Z /\ fst (conc_sreg sreg0 [b; a]) = [0; 3]%Z
+  /\ model i = SL [SL [SZ 0; SZ 3]; SL [SZ 2; SZ 2]; ks]
+  /\ spec i (model i) = true
+  /\ spec i (SL [SL [SZ 0; SZ 0]; SL [SZ 3; SZ 3]; ks]) = false
+  /\ spec i (SL [SL [SZ 0; SZ 3]; SL [SZ 3; SZ 3]; ks]) = false.
+Proof. vm_compute. repeat split. Qed.
 
 (* ---------------------------------------------------------------- wire *)
 (* the oracle the driver runs on the implementation's observations accepts the
